@@ -68,8 +68,7 @@ def scan (first : Nat → Rd) (l : List Nat) (final : Bool) : Res := scanS first
 
 /-! ## unit decoders -/
 
-def isCont (b : Nat) : Prop := 0x80 ≤ b ∧ b ≤ 0xBF
-instance (b : Nat) : Decidable (isCont b) := by unfold isCont; exact inferInstance
+abbrev isCont (b : Nat) : Prop := 0x80 ≤ b ∧ b ≤ 0xBF
 
 /-- UTF-8 (`stringlib/codecs.h` `utf8_decode`; the `ED A0..BF` + end-of-data case is
 `unicode_decode_utf8` case 2: a truncated surrogate waits for more data when not final) -/
